@@ -378,3 +378,17 @@ PROPERTIES["C12"] = {
                  ["VerifC12GenerateSchema"], "internal/jennies/jsonschema", test_pkg_name="jsonschema", needs_leaf=True,
                  allow_unreached=["C12: a property is not a schema object", "C12: an array has no items schema", "C12: a map has no additionalProperties schema"])],
 }
+
+
+PROPERTIES["C10"] = {
+    "level_text": "Bounded symbolic execution + SMT of the JSON Schema walker (declareDefinition/walkDefinition/walkObject/walkString/Number/Bool/List/Enum/UntypedConstant, "
+                  "unwrapJSONNumber) driven with bounded symbolic instances of the library's compiled-schema struct (numbers as json.Number, as santhosh-tekuri/jsonschema delivers them), "
+                  "followed by the real Go and Python pass chains: every default and constant declared by the schema must be present in the IR with the same value and a canonical dynamic "
+                  "type (bool/int64/float64/string/[]any/map[string]any) at the parser's output and at the end of both chains.",
+    "level_note": "In part: what a generated constructor prints is text rendered by templates (not encodable); the claim is the IR-level mechanism the property names (defaults travel as "
+                  "untyped Go values). Bounds: object of 1 (quick) / 2 (thorough) properties over 7 kinds (string/integer/number/boolean/array/enum defaults, typed and untyped constants). "
+                  "CUE and OpenAPI front ends, and Go-vs-Python agreement of the emitted code, are outside the claim.",
+    "bounds": {"schema": "object with 1/2 properties x 7 kinds, defaults present or absent, Required symbolic"},
+    "runs": [Run("jsonschema_parser", ["./internal/jsonschema"], _h(("internal/jsonschema/zz_verif_c10.go", "harness/pjsonschema/zz_verif_c10.go")),
+                 ["VerifC10JSONSchemaDefaults"], "internal/jsonschema", needs_leaf=True)],
+}
